@@ -215,6 +215,11 @@ type NodeResponse struct {
 // a set of filers.
 func (s *Serf) shouldProcessQuery(filters [][]byte) bool {
 	for _, filter := range filters {
+		if len(filter) == 0 {
+			// A filter without a type byte cannot be evaluated
+			s.logger.Printf("[WARN] serf: query has an empty filter")
+			return false
+		}
 		switch filterType(filter[0]) {
 		case filterNodeType:
 			// Decode the filter
